@@ -46,10 +46,12 @@ SeqStep(To, e) ==
     THEN V(FALSE, To, "contents after " \o e.op \o " differ from collections.deque: " \o ToJson(r.D.items))
     ELSE V(TRUE, [To EXCEPT !.D = r.D], "")
 
+\* a call that commits nothing is explained only by contents on which it has nothing to do
+DCand(D, cl) == LET r == DDispatch(D, cl) IN IF r.D = D THEN {r.ret} ELSE {}
 ConcStep(To, e) ==
     IF e.ev = "call"
     THEN V(TRUE, [To EXCEPT !.call[e.c] = [op |-> e.op, a |-> e.a, st |-> "open", exp |-> DNone,
-                                           cand |-> {DDispatch(To.D, e).ret}, overlap |-> FALSE]], "")
+                                           cand |-> DCand(To.D, e), overlap |-> FALSE]], "")
     ELSE IF e.ev \in {"commit", "awrite"}
     THEN LET cl == To.call[e.c] IN
          IF cl.op = "none" THEN V(FALSE, To, "harness: commit outside a call")
@@ -61,7 +63,7 @@ ConcStep(To, e) ==
                                  !.call = [c \in DOMAIN To.call |->
                                     IF c = e.c THEN [To.call[c] EXCEPT !.st = "multi"]
                                     ELSE IF To.call[c].op # "none" /\ To.call[c].st = "open"
-                                    THEN [To.call[c] EXCEPT !.cand = @ \cup {DDispatch(Dn, To.call[c]).ret}, !.overlap = TRUE]
+                                    THEN [To.call[c] EXCEPT !.cand = @ \cup DCand(Dn, To.call[c]), !.overlap = TRUE]
                                     ELSE To.call[c]]], "")
          ELSE LET r == DDispatch(To.D, cl)
                   Tn == [To EXCEPT !.D = r.D, !.call[e.c].st = "committed", !.call[e.c].exp = r.ret]
@@ -72,7 +74,7 @@ ConcStep(To, e) ==
                                    " are not that operation applied to the contents committed just before: " \o ToJson(r.D.items))
                  ELSE V(TRUE, [Tn EXCEPT !.call = [c \in DOMAIN Tn.call |->
                             IF c # e.c /\ Tn.call[c].op # "none" /\ Tn.call[c].st = "open"
-                            THEN [Tn.call[c] EXCEPT !.cand = @ \cup {DDispatch(r.D, Tn.call[c]).ret}, !.overlap = TRUE]
+                            THEN [Tn.call[c] EXCEPT !.cand = @ \cup DCand(r.D, Tn.call[c]), !.overlap = TRUE]
                             ELSE Tn.call[c]]], "")
     ELSE IF e.ev = "ret"
     THEN LET cl == To.call[e.c]
